@@ -88,6 +88,7 @@ def run(P, C, tier):
     C.rule("R1", "last-writer-wins is the strict lexicographic order on (mdate, signature): exhaustive over the 9 orderings")
     C.rule("R2", "the decision reads nothing else of the two versions (every branch between the lookup and the outcome is one of the classified comparisons)")
     C.rule("R3", "rows absent locally are always fetched; the comparison is made against the stored row with the same id")
+    C.rule("R4", "the version that is stored is the version that won the comparison: the fetched row's (mdate, signature) is checked against the stored version (or the advertised identifier) before it replaces it")
     try:
         b = P.body("node::Node::filter_existing")
     except mir.MissingAnchor as e:
@@ -155,3 +156,34 @@ def run(P, C, tier):
                     pass
             txt = " ".join(term_str(fb.def_term(bi, None, t, 0)) for bi, t in fb.live_calls())
             C.ob("R3", "identifier-keyed-by-id:" + im["trait"].split("::")[-1], ".id" in txt and "mdate" not in txt and "signature" not in txt, fb.loc(), "uses the id only: %s" % txt[:80])
+
+    # ---- R4: the row delivered by the peer for an identifier is not necessarily the advertised version
+    try:
+        sd = P.body("LocalPeerService::synchronise_day::{closure#0}")
+        C.saw(sd)
+        pushes = [bi for bi, t in sd.calls_to(r"Vec::push$") if field_path(sd.call_args(bi)[0]) == "nodes_to_insert"]
+        checked = 0
+        for pb in pushes:
+            for s_, vals, term in sd.guards(pb, expand_vars=True):
+                atom, truth = mir.cond_atoms(term, vals)
+                txt = term_str(atom)
+                if atom[0] in ("bin", "call") and ("mdate" in txt or "signature" in txt) and ("old_mdate" in txt or "nti" in txt or "NodeIdentifier" in txt):
+                    checked += 1
+        also = False
+        for fn in ("GraphDatabase::add_nodes::{closure#0}", "RoomAuthorisations::validate_node"):
+            fb = P.body(fn, required=False)
+            if fb is None:
+                continue
+            for sb in fb.live_blocks():
+                tt = fb.blocks[sb]["t"]
+                if tt["k"] == "switch":
+                    txt = term_str(fb.switch_term(sb, expand_vars=True))
+                    if "old_mdate" in txt and "mdate" in txt.replace("old_mdate", ""):
+                        also = True
+        C.floor("R4", "row insertion sites of the day exchange", len(pushes), 2)
+        C.ob("R4", "fetched-version-unchecked", (checked >= len(pushes) and pushes) or also, sd.loc(pushes[0]) if pushes else sd.loc(),
+             "the rows returned for Query::Nodes are matched to the selected identifiers by id only; neither synchronise_day, add_nodes nor validate_node compares the delivered row's "
+             "mdate/signature with the stored version (old_mdate) or with the advertised identifier: a peer can advertise a newer version and deliver an older validly signed one, which "
+             "then replaces the newer stored row (the last-writer-wins order of R1 is bypassed)")
+    except mir.MissingAnchor as e:
+        C.anchor_missing("R4", "synchronise_day", e)
